@@ -1,6 +1,6 @@
 (** Non-vacuity for C11_frag: programs of the fragment, by computation. *)
 From Coq Require Import NArith List.
-From FF Require Import Aml.Grammar Aml.WfProgram Aml.ParserFragF0Final Aml.ParserFragF1Final Aml.ParserFragF3Final Aml.ParserFragF4Final Aml.ParserFragF5Final Aml.ParserFragF6Final Aml.ParserFragF7Final Aml.ParserFragT2Final Aml.ParserFragT2F7Final Props.C11_frag.
+From FF Require Import Aml.Grammar Aml.WfProgram Aml.ParserFragF0Final Aml.ParserFragF1Final Aml.ParserFragF3Final Aml.ParserFragF4Final Aml.ParserFragF5Final Aml.ParserFragF6Final Aml.ParserFragF7Final Aml.ParserFragT2Final Aml.ParserFragT2F7Final Aml.ParserFragTNTop Aml.ParserFragTNFinal Props.C11_frag.
 Import ListNotations.
 Local Open Scope N_scope.
 
@@ -312,4 +312,43 @@ Example C11_fragment_T2F7_excludes :
   in_fragment_T2F7 [[AScope 1 (mkName true 0 false [seg4 0x5f 0x53 0x42 0x5f]) []]; []] = false /\
   in_fragment_T2F7 [[]; [AName (f0_nm 0x42 0x55 0x46 0x30) (ABuffer 1 (AConst OP_BYTE 2) [1; 2])]] = false /\
   in_fragment_T2F7 [[AName (f0_nm 0x50 0x4b 0x47 0x30) (APackage 1 1 [APackage 1 0 []])]; []] = false.
+Proof. vm_compute. repeat split. Qed.
+
+(** ---- TN: five tables (one of them empty), the last one with Scope directives ---- *)
+Definition tn_program : list (list ast) :=
+  [[ADevice 1 (f0_nm 0x44 0x45 0x56 0x30)
+      [AName (f0_nm 0x5f 0x48 0x49 0x44) (AStr [0x50; 0x4e; 0x50; 0x30; 0x41; 0x30; 0x33]);
+       AName (f0_nm 0x5f 0x50 0x52 0x57) (APackage 1 2 [AConst OP_BYTE 0x18; AConst OP_BYTE 4])];
+    AOpRegion (f0_nm 0x52 0x45 0x47 0x30) 1 (AConst OP_WORD 0x0cf8) (AConst OP_BYTE 8)];
+   [];
+   [AName (f0_nm 0x53 0x53 0x44 0x31) (AStr [0x73; 0x73; 0x64; 0x74]);
+    AProcessor 1 (f0_nm 0x43 0x50 0x55 0x30) 0 0x410 6 [AName (f0_nm 0x5f 0x55 0x49 0x44) (AConst 0x01 0)]];
+   [AMethod 1 (f0_nm 0x4d 0x54 0x48 0x30) 2 []; AMutex (f0_nm 0x4d 0x54 0x58 0x30) 3];
+   [AName (f0_nm 0x53 0x53 0x44 0x34) (AConst OP_DWORD 0xdeadbeef);
+    AScope 1 (mkName true 0 false [seg4 0x5f 0x53 0x42 0x5f])
+      [ADevice 1 (f0_nm 0x44 0x45 0x56 0x31)
+         [AName (f0_nm 0x5f 0x43 0x49 0x44) (APackage 1 2 [AStr [0x41; 0x42]; AConst 0xff 0])];
+       AEvent (f0_nm 0x45 0x56 0x54 0x30)];
+    AScope 1 (mkName false 0 false [seg4 0x5f 0x54 0x5a 0x5f]) [AThermal 1 (f0_nm 0x54 0x5a 0x30 0x30) []];
+    AName (f0_nm 0x45 0x4d 0x50 0x54) (APackage 1 0 [])]].
+
+Example C11_parse_encode_partial_TN_nonvacuous :
+  wf_program tn_program = true /\ in_fragment_TN tn_program = true /\ in_fragment_T2F7 tn_program = false /\
+  in_fragment_TN f7_program = true /\ in_fragment_TN f6_program = true /\ in_fragment_TN f0_program = true /\
+  in_fragment_TN t2_program = true /\ in_fragment_TN t2f7_program = true /\ in_fragment_TN [[]] = true /\ in_fragment_TN [[]; []; []] = true.
+Proof. vm_compute. repeat split. Qed.
+
+Example C11_parse_encode_partial_TN_instance : parse_encode_statement tn_program.
+Proof. apply C11_parse_encode_partial_TN; vm_compute; reflexivity. Qed.
+
+Example C11_parse_encode_partial_TN_run : parse_program tn_program = (0, ns tn_program) /\ length (ns tn_program) = 15%nat.
+Proof. vm_compute. split; reflexivity. Qed.
+
+(** outside TN: no table at all, a Scope directive in a table that is not the last, a Buffer value, a nested package *)
+Example C11_fragment_TN_excludes :
+  in_fragment_TN [] = false /\
+  in_fragment_TN [[AScope 1 (mkName true 0 false [seg4 0x5f 0x53 0x42 0x5f]) []]; []] = false /\
+  in_fragment_TN [[]; [AScope 1 (mkName true 0 false [seg4 0x5f 0x53 0x42 0x5f]) []]; []] = false /\
+  in_fragment_TN [[]; [AName (f0_nm 0x42 0x55 0x46 0x30) (ABuffer 1 (AConst OP_BYTE 2) [1; 2])]] = false /\
+  in_fragment_TN [[AName (f0_nm 0x50 0x4b 0x47 0x30) (APackage 1 1 [APackage 1 0 []])]; []] = false.
 Proof. vm_compute. repeat split. Qed.
